@@ -8,7 +8,7 @@ LEVEL = "proof"
 MODULE = "IwModel.Props.C06"
 THEOREMS = ["IwModel.C06." + t for t in (
     "checkSlots_sound", "checkDb_sound_levels", "checkDb_sound_links", "checkDb_sound_order", "checkDb_sound_nodes",
-    "checkLedger_sound", "audit_sound")]
+    "checkLedger_sound", "audit_sound", "writer_node_slots_ok")]
 MANIFEST = dict(
     level="proof",
     text=("An independent reader of the file format written in Lean (allocator header, bitmap, database chain, node records, data blocks) "
